@@ -253,7 +253,33 @@ fn put_guard(ctx: Ctx, g: u8, e: GEntry) {
 }
 
 /// Checks the identity seen through a guard and drops it.
+/// Known finding KF3, second call site: a guard that is released compare-exchanges "its" slot by
+/// pointer value; after the node was re-claimed that slot may hold a debt of a guard of the OTHER
+/// pointer kind (Arc vs Weak) on the same allocation. The precondition is marked whenever a guard
+/// is released while a guard of the other kind on the same allocation is alive.
+fn mark_cross_kind_release(e: &GEntry) {
+    if e.addr == 0 {
+        return;
+    }
+    let hit = w(|w| {
+        let weak_of = |c: u8| w.conts.get(c as usize).map(|x| x.kind == CKind::WD as u8).unwrap_or(false);
+        let mine = weak_of(e.cont);
+        w.guards
+            .iter()
+            .flatten()
+            .chain(w.tmp_guards.iter())
+            .chain(w.mail.iter().flat_map(|m| m.queue.iter()))
+            .any(|g| g.addr == e.addr && weak_of(g.cont) != mine)
+    });
+    if hit {
+        crate::marks::mark(
+            "cross-kind-guard-release: a guard is released while a guard of the other pointer kind (Arc vs Weak) borrows the same allocation; slots are matched by the raw pointer only".to_string(),
+        );
+    }
+}
+
 fn drop_guard_entry(e: GEntry, what: &str) {
+    mark_cross_kind_release(&e);
     let seen = e.g.uid_touch();
     w(|w| w.guard_checks += 1);
     if seen != e.uid && !rt::is_aborting() {
@@ -364,6 +390,7 @@ fn op_guard_into_inner(ctx: Ctx, g: u8, h: u8) {
     let Some(e) = e else { return };
     op_drop_handle_keep(ctx, h, Some(e)).map(|e| {
         rt::op_begin(OP_GUARD_INTO_INNER);
+        mark_cross_kind_release(&e);
         let exp = e.uid;
         let res = guarded("Guard::into_inner", move || e.g.into_inner());
         if let Some(hv) = res {
